@@ -73,6 +73,10 @@ type envState struct {
 	pointHits   map[string]int
 	crashWindow int
 	crashCommits bool
+	// scripted remote (h.Remote)
+	remotePages    []string
+	remoteServed   int
+	remoteRequests []string
 	// failWriteSuffix: writes to files whose path ends with it fail (h.FailWrites)
 	failWriteSuffix string
 	recycleKeys  bool
